@@ -217,6 +217,16 @@ func cmdCheck(args []string) int {
 				fmt.Printf("REGRESSED %s (%s): discharged at baseline, now undecided\n", g.Name, g.Class)
 				fmt.Printf("VIOLATION property=%s replay=%s no-failing-input-found\n", id, path)
 				violations++
+			} else if w := tryWitness(L, g.firstFailing()); w != nil && w.Reproduced {
+				// not provable, no model from the solver, but a witness-pool
+				// input attached to this obligation fails on the real code
+				total++
+				o := g.firstFailing()
+				path := writeReplayFile(id, o, w, "obligation undecided by the solvers; witness-pool input reproduces the failure")
+				fmt.Printf("FAILED %s (%s) at %s: %s\n", g.Name, g.Class, o.Pos, o.Info)
+				fmt.Printf("  replay: %s\n", w.Summary)
+				fmt.Printf("VIOLATION property=%s replay=%s\n", id, path)
+				violations++
 			} else {
 				undecided = append(undecided, g.Name)
 			}
